@@ -36,7 +36,11 @@ theorem inv2_step (o : Obj S N) {sh sh' : Sh S N} {pre post : List (Th o.WOp N)}
       (∀ c, SameObs (sh2.cbs c) (sh.cbs c)) → ∀ c, Cb2 sh2 c :=
     fun sh2 a b c d e f x => cb2_mono (hcb x) a b (fun _ hin => c ▸ hin) (d x) (e x) (f x)
   cases htr with
-  | startWrite w rest hu =>
+  | earlyReturn w rest hearly =>
+    refine ⟨hcbsame _ (Nat.le_refl _) rfl rfl (fun _ => rfl) (fun _ => rfl) (fun _ => sameObs_refl _), ?_⟩
+    simp only; rw [forall_mid]
+    exact ⟨th2_idle _ rest, hsame _ (Nat.le_refl _) rfl (fun _ => rfl) (fun _ => sameObs_refl _)⟩
+  | startWrite w rest hearly hu =>
     refine ⟨hcbsame _ (Nat.le_refl _) rfl rfl (fun _ => rfl) (fun _ => rfl) (fun _ => sameObs_refl _), ?_⟩
     simp only; rw [forall_mid]
     exact ⟨by constructor <;> simp [tid, todo, isFresh, runs, marking],
